@@ -24,6 +24,7 @@ func main() {
 	tier := flag.String("tier", "quick", "quick|thorough")
 	only := flag.String("only", "", "re-check only obligations whose key has this prefix (no evidence written)")
 	selftest := flag.Bool("selftest", false, "run fixtures and in-situ controls only")
+	dump := flag.String("dump", "", "debug: print the SSA of the named function (as the checker sees it)")
 	flag.Parse()
 	if t := os.Getenv("VERIF_TIER"); t != "" && *tier == "" {
 		*tier = t
@@ -31,6 +32,19 @@ func main() {
 	seed := 0
 	if s := os.Getenv("VERIF_SEED"); s != "" {
 		seed, _ = strconv.Atoi(s)
+	}
+	if *dump != "" {
+		p, err := Load(LoadOpts{Repo: *repo})
+		if err != nil {
+			fmt.Println(err)
+			os.Exit(2)
+		}
+		for _, f := range p.Funcs {
+			if shortFuncName(f) == *dump {
+				f.WriteTo(os.Stdout)
+			}
+		}
+		os.Exit(0)
 	}
 	if *selftest {
 		os.Exit(runSelfTest(*repo, *verif, flag.Args()))
